@@ -32,7 +32,15 @@ type cuser struct{ id interface{} }
 
 func (u *cuser) GetID() interface{} { return u.id }
 
-type codecStore struct{ lastLoadUser string }
+// cuserV is a user whose type is a plain value (no pointer): GetID has a value receiver.
+type cuserV struct{ id interface{} }
+
+func (u cuserV) GetID() interface{} { return u.id }
+
+type codecStore struct {
+	lastLoadUser string
+	valueUsers   bool // LoadUser hands out value-type users
+}
 
 func (c *codecStore) LoadSession(id string) (*sessions.Session, error) { return nil, nil }
 func (c *codecStore) SaveSession(id string, s *sessions.Session) error { return nil }
@@ -42,6 +50,9 @@ func (c *codecStore) UserSessions(userID interface{}) ([]string, error) {
 }
 func (c *codecStore) LoadUser(id interface{}) (sessions.User, error) {
 	c.lastLoadUser = renderTyped(id)
+	if c.valueUsers {
+		return cuserV{id: id}, nil
+	}
 	return &cuser{id: id}, nil
 }
 
@@ -247,7 +258,12 @@ func runCodec(script, outPath string) {
 					p := strings.SplitN(kv, "=", 2)
 					switch p[0] {
 					case "us":
-						if p[1] != "-" {
+						cs.valueUsers = false
+						if strings.HasPrefix(p[1], "V") {
+							// a user of a value type, before and after the round trip
+							cs.valueUsers = true
+							fl.User = cuserV{id: parseTyped(p[1][1:])}
+						} else if p[1] != "-" {
 							fl.User = &cuser{id: parseTyped(p[1])}
 						}
 					case "cr":
